@@ -105,8 +105,9 @@ def minGasPriceOk (e : Env) (t : Tx) : Bool :=
 /-- fee deducted by EthGasConsumeDecorator: VerifyFee = txData.EffectiveFee(baseFee) -/
 def anteFee (e : Env) (t : Tx) : Int := antePrice e t * t.gasLimit
 
-/-- DeliverTx-mode admission: every check that makes baseapp drop the ante cache. -/
-def admissible (e : Env) (s : St) (t : Tx) : Bool :=
+/-- The admission checks DeliverTx performed before the F-19a repair (value and fee compared with the balance
+    separately); still all performed, kept as a definition of its own for the regression theorem. -/
+def admissibleSeparate (e : Env) (s : St) (t : Tx) : Bool :=
   !(decide (0 < e.blockGasLimit) && decide (e.blockGasLimit ≤ s.blockGas)) &&  -- runTx: BlockGasMeter().IsOutOfGas()
   minGasPriceOk e t && wellFormed t && t.sigOk &&
   decide (e.baseFee ≤ t.feeCap) &&                                             -- CanTransferDecorator / VerifyFee
@@ -114,6 +115,13 @@ def admissible (e : Env) (s : St) (t : Tx) : Bool :=
   decide (anteFee e t ≤ s.bal t.sender) &&                                     -- authante.DeductFees
   !(decide (0 < e.blockGasLimit) && decide (e.blockGasLimit < t.gasLimit)) &&  -- tx gas > block gas limit
   decide (t.nonce = s.nonce t.sender)                                          -- EthIncrementSenderSequenceDecorator
+
+/-- x/evm/keeper/fees.go CheckSenderBalance, called by EthAccountVerificationDecorator in every mode (F-19a repair):
+    balance ≥ txData.Cost() = gasLimit·feeCap + value (the fee CAP, as go-ethereum's buyGas) -/
+def totalCostOk (s : St) (t : Tx) : Bool := decide (t.feeCap * t.gasLimit + t.value ≤ s.bal t.sender)
+
+/-- DeliverTx-mode admission: every check that makes baseapp drop the ante cache. -/
+def admissible (e : Env) (s : St) (t : Tx) : Bool := admissibleSeparate e s t && totalCostOk s t
 
 /-- state after a passing ante handler: fee escrowed with the collector, sequence + 1 -/
 def afterAnte (e : Env) (s : St) (t : Tx) : St :=
